@@ -117,6 +117,13 @@ PROGRAMS = {
         ["declare", "l", "raman_local", ["q0", "q2"]],
         ["add", "l", ["cp", 20, S("a0", lo=0, hi=5), S("d0", "fix", lo=-20, hi=20), "PH:p0"]],
         ["target", "l", ["q1"]], ["add", "l", ["cp", 12, S("a1", lo=0, hi=5), 0.0, 1.0]]]),
+    # integer qubit ids (the first one is 0): initial target 0, retarget, index-free phase shift
+    "int_ids": dict(device="mock", reg="regint", prog=[
+        ["declare", "l", "raman_local", 0], ["declare", "g", "rydberg_global"],
+        ["add", "l", ["cp", 20, S("a0", lo=0, hi=5), 0.0, 0.25]],
+        ["target", "l", 2], ["add", "l", ["cp", 12, 1.0, 0.0, 0.0]],
+        ["phase_shift", 0.5, [0, 1], "digital"], ["target", "l", 0], ["add", "l", ["cp", 12, 1.0, 0.0, 1.0]],
+        ["add", "g", ["cp", 16, 1.0, 0.0, 0.0]]]),
     # interpolated waveforms with a non-default interpolator and interpolator options (values concrete: scipy)
     "interp_opts": dict(device="mock", prog=[
         ["declare", "g", "rydberg_global"],
@@ -154,7 +161,8 @@ PARAM_PROGRAMS = {
                       ["interp", 40, E("sub", ["var", "s"], {"lit": [0.0, 1.0, 2.0]}), [0.0, 0.5, 1.0]], 0.0]],
         ["add", "g", ["cdet", ["interp", 40, E("mul", {"lit": [2.0, 1.0, 0.5]}, ["var", "arr"]), [0.0, 0.25, 1.0]], E("div", ["var", "s"], 2.0), 0.0]]]),
     # mappable register: "all qubits" of a target-less phase_shift is only known at build time (built with 2 of 3 qubits)
-    "mappable_shift_all": dict(device="mock", reg="mappable3", direct_reg="mapped3", qubits={"q0": 1, "q1": 4}, vars=[("a", "float", 1)], prog=[
+    "mappable_shift_all": dict(device="mock", reg="mappable3", direct_reg="mapped3", qubits={"q0": 1, "q1": 4},
+                               qubits_alt={"q0": 2, "q1": 5}, direct_reg_alt="mapped3b", vars=[("a", "float", 1)], prog=[
         ["declare", "g", "rydberg_global"],
         ["add", "g", ["cp", 16, E("var", "a"), 0.0, 0.25]],
         ["phase_shift", E("mul", ["var", "a"], 0.5), [], "ground-rydberg"],
@@ -178,6 +186,11 @@ PARAM_PROGRAMS = {
         ["phase_shift_index", E("var", "a"), [1], "ground-rydberg"],
         ["target_index", "l", E("item", "t", 1)],
         ["add", "l", ["cp", 12, 1.0, E("neg", ["var", "a"]), 0.0]]]),
+    # parametrized objects whose arguments are ALL given by keyword
+    "kw_only": dict(device="mock", vars=[("a", "float", 1), ("b", "float", 1)], prog=[
+        ["declare", "g", "rydberg_global"],
+        ["add", "g", ["pulse_kw", ["ramp_kw", 16, E("var", "a"), E("add", ["var", "a"], 1.0)], ["const_kw", 16, E("neg", ["var", "b"])], 0.25]],
+        ["add", "g", ["cdet_kw", ["const_kw", 12, E("mul", ["var", "b"], 2.0)], E("var", "a"), 0.5]]]),
     "vars_dmm": dict(device="mock", vars=[("x", "float", 1)], prog=[
         ["declare", "g", "rydberg_global"], ["config_dmap", {"q0": 1.0, "q1": 0.5, "q2": 0.0}, "dmm_0"],
         ["add_dmm", "dmm_0", ["ramp", 16, E("neg", ["var", "x"]), E("div", ["neg", ["var", "x"]], 2.0)]],
@@ -223,10 +236,11 @@ def static_equal(a, b):
     terms = []
     terms.append(a.device == b.device)
     ra, rb = a.get_register(), b.get_register()
-    terms.append(type(ra) is type(rb) and list(ra.qubit_ids) == list(rb.qubit_ids))
+    # (the abstract representation documents that qubit ids come back as strings)
+    terms.append(type(ra) is type(rb) and [str(q) for q in ra.qubit_ids] == [str(q) for q in rb.qubit_ids])
     if hasattr(ra, "qubits") and not a.is_register_mappable():
-        for q in ra.qubit_ids:
-            terms.append(bool(np.allclose(np.asarray(ra.qubits[q].as_array(), dtype=float), np.asarray(rb.qubits[q].as_array(), dtype=float))))
+        for q, q2 in zip(ra.qubit_ids, rb.qubit_ids):
+            terms.append(bool(np.allclose(np.asarray(ra.qubits[q].as_array(), dtype=float), np.asarray(rb.qubits[q2].as_array(), dtype=float))))
         terms.append((ra.layout is None) == (rb.layout is None))
         if ra.layout is not None:
             terms.append(ra.layout == rb.layout)
@@ -244,7 +258,7 @@ def static_equal(a, b):
     terms.append(a.is_parametrized() == b.is_parametrized())
     terms.append(sorted(a.declared_variables) == sorted(b.declared_variables))
     terms.append(a._in_xy == b._in_xy)
-    terms.append(set(a._slm_mask_targets) == set(b._slm_mask_targets))
+    terms.append(set(map(str, a._slm_mask_targets)) == set(map(str, b._slm_mask_targets)))
     return terms
 
 
@@ -260,6 +274,12 @@ def h_roundtrip(shape):
 
         seq = build_program(inp, P)
         obs = []
+        if shape.get("relevel"):
+            # the device was already serialised once, then its Rydberg level is changed (VirtualDevice.change_rydberg_level
+            # edits the device in place): the document written afterwards describes the device as it is NOW
+            seq.to_abstract_repr()
+            seq._serialize()
+            seq.device.change_rydberg_level(61)
         try:
             if shape["codec"] == "abstract":
                 s = seq.to_abstract_repr()  # includes real schema validation
@@ -365,6 +385,8 @@ def kernels(tier):
         if name not in LEGACY_ONLY:
             ks.append(("roundtrip", dict(program=name, codec="abstract")))
         ks.append(("roundtrip", dict(program=name, codec="legacy")))
+    for codec in ("abstract", "legacy"):
+        ks.append(("roundtrip", dict(program="at_rest_b", codec=codec, relevel=True)))
     for name in PARAM_PROGRAMS:
         ks.append(("param", dict(program=name, codec="abstract")))
         ks.append(("param", dict(program=name, codec="legacy")))
